@@ -65,9 +65,19 @@ ML = {1: (np.linspace(0.9, 0.6, N), np.linspace(0.1, 0.4, N)),
       2: (np.linspace(0.1, 0.4, N), np.linspace(0.9, 0.6, N))}
 
 
+# ... and temporary features named like two computed features: a temporary
+# feature takes precedence over a computed one, whether or not the computed
+# one has been read (and cached) before
+OVER = {"time": {1: np.linspace(1.0, 2.0, N), 2: np.linspace(5.0, 9.0, N)},
+        "area_ratio": {1: np.linspace(1.01, 1.3, N),
+                       2: np.linspace(1.5, 1.9, N)}}
+
+
 def set_temp_features(ds, ver):
     import dclab
     ds._usertemp["temp"] = TEMP[ver]
+    for f_ in OVER:
+        dclab.set_temporary_feature(ds, f_, OVER[f_][ver])
     dclab.set_temporary_feature(ds, "ml_score_abc", ML[ver][0])
     dclab.set_temporary_feature(ds, "ml_score_xyz", ML[ver][1])
 
@@ -234,7 +244,15 @@ def _replay(job):
             fhas, want = fresh(state["cfg"], state["temp"], f)
             ctx = "%s, keys %s" % (st["a"] + " " + st.get("k", "temp"),
                                    descr(state["cfg"], state["temp"]))
-            if not same(got, want):
+            if state["temp"] and f in OVER and not (
+                    got[0] == "ok" and np.array_equal(
+                        got[1], OVER[f][state["temp"]])):
+                out.append(("a temporary feature named %s does not take "
+                            "precedence over the computed one" % f,
+                            "steps %s from %s: got %s" % (
+                                steps, descr(cfg0, temp0), str(got)[:80]),
+                            i))
+            elif not same(got, want):
                 out.append(("%s differs from a fresh dataset after %s" % (
                     f, st["a"] + " " + st.get("k", "temp")),
                     "steps %s from %s: got %s fresh %s" % (
